@@ -112,10 +112,11 @@ Hypothesis R_un : forall k a a', R a a' -> R (unf C k a) (unf C k a').
 Variable flagged : nat -> Prop.
 Hypothesis flagged_assoc : forall k, flagged k -> forall a b c, R (binf C k (binf C k a b) c) (binf C k a (binf C k b c)).
 
-Variable vals : list D.
-(* what is required of the variable list of every level (it bounds the arity check of eval_relaxed) *)
+(* the value of a variable node (index, name): by position in an assignment (vlook), or by name *)
+Variable look : nat -> str -> D.
+(* what is required of every variable node and of the variable list of every level *)
+Variable okvar : nat -> str -> Prop.
 Variable okvars : list str -> Prop.
-Hypothesis okvars_len : forall v, okvars v -> length v <= length vals.
 
 (* ---- denotation ---- *)
 Fixpoint dden (e : deepex D) : D :=
@@ -125,14 +126,14 @@ Fixpoint dden (e : deepex D) : D :=
         (match (fix go (l : list (dnode D)) : list D :=
                   match l with
                   | [] => []
-                  | n :: tl => (match n with DNum d => d | DVar i _ => nth i vals (dflt C) | DExpr e' => dden e' end) :: go tl
+                  | n :: tl => (match n with DNum d => d | DVar i x => look i x | DExpr e' => dden e' end) :: go tl
                   end) nodes with
          | [] => dflt C
          | x :: rest => pv C x (combine (map to_fop bops) rest)
          end)
   end.
 Definition nden (n : dnode D) : D :=
-  match n with DNum d => d | DVar i _ => nth i vals (dflt C) | DExpr e' => dden e' end.
+  match n with DNum d => d | DVar i x => look i x | DExpr e' => dden e' end.
 Definition level_val (xs : list D) (bops : list dbop) : D :=
   match xs with [] => dflt C | x :: rest => pv C x (combine (map to_fop bops) rest) end.
 Lemma dden_unfold nodes bops uop vars :
@@ -148,11 +149,11 @@ Fixpoint dwf (e : deepex D) : Prop :=
       (fix all (l : list (dnode D)) : Prop :=
          match l with
          | [] => True
-         | n :: tl => (match n with DNum _ => True | DVar i _ => i < length vals | DExpr e' => dwf e' end) /\ all tl
+         | n :: tl => (match n with DNum _ => True | DVar i x => okvar i x | DExpr e' => dwf e' end) /\ all tl
          end) nodes
   end.
 Definition nwf (n : dnode D) : Prop :=
-  match n with DNum _ => True | DVar i _ => i < length vals | DExpr e' => dwf e' end.
+  match n with DNum _ => True | DVar i x => okvar i x | DExpr e' => dwf e' end.
 Lemma dwf_unfold nodes bops uop vars :
   dwf (DE nodes bops uop vars) <->
   length nodes = S (length bops) /\ okvars vars /\
@@ -162,7 +163,7 @@ Proof.
   assert (H : (fix all (l : list (dnode D)) : Prop :=
                  match l with
                  | [] => True
-                 | n :: tl => (match n with DNum _ => True | DVar i _ => i < length vals | DExpr e' => dwf e' end) /\ all tl
+                 | n :: tl => (match n with DNum _ => True | DVar i x => okvar i x | DExpr e' => dwf e' end) /\ all tl
                  end) nodes <-> Forall nwf nodes).
   { induction nodes as [|n tl IH]; [split; [constructor|trivial]|]. split.
     - intros [H1 H2]. constructor; [exact H1|apply IH; exact H2].
@@ -171,6 +172,7 @@ Proof.
 Qed.
 
 (* ---- evaluation, unfolded ---- *)
+Variable vals : list D.
 Definition neval (n : dnode D) : res D :=
   match n with
   | DNum d => Ok d
@@ -244,6 +246,8 @@ Lemma R_apply_un_ us a a' : R a a' -> R (apply_un C us a) (apply_un C us a').
 Proof. intros H. induction us as [|u us IH]; cbn; [exact H|apply R_un; exact IH]. Qed.
 
 (* ---- evaluation computes the denotation ---- *)
+Hypothesis okvars_len : forall v, okvars v -> length v <= length vals.
+Hypothesis okvar_look : forall i x, okvar i x -> i < length vals /\ look i x = nth i vals (dflt C).
 Theorem eval_deep_is_dden : forall e, dwf e -> exists v, eval_deep_relaxed C e vals = Ok v /\ R v (dden e).
 Proof.
   induction e as [nodes bops uop vars IH] using deep_ind. intros Hwf.
@@ -259,8 +263,8 @@ Proof.
     { destruct n as [e'|d|i x]; cbn [neval nden nwf] in *.
       - apply (IH e' (or_introl eq_refl) Hn).
       - exists d. split; [reflexivity|apply R_refl].
-      - destruct (nth_error vals i) as [v|] eqn:En; [|apply nth_error_None in En; lia].
-        exists v. split; [reflexivity|]. rewrite (nth_error_nth _ _ (dflt C) En). apply R_refl. }
+      - destruct (okvar_look i x Hn) as [Hi Hl]. destruct (nth_error vals i) as [v|] eqn:En; [|apply nth_error_None in En; lia].
+        exists v. split; [reflexivity|]. rewrite Hl, (nth_error_nth _ _ (dflt C) En). apply R_refl. }
     destruct Hn' as (v & Ev & Rv). exists (v :: nums). cbn [mapM map]. rewrite Ev. cbn [bind]. rewrite E. cbn [bind].
     split; [reflexivity|constructor; assumption]. }
   destruct Hnums as (nums & Enums & HR). rewrite Enums. cbn [bind].
@@ -277,3 +281,7 @@ Proof.
   eapply R_trans; [exact Rv|]. exact (level_val_R (x :: rest) (map nden nodes) bops HR).
 Qed.
 End DeepSem.
+
+(* variables valued by position in an assignment *)
+Definition vlook {D} (C : carrier D) (vals : list D) : nat -> str -> D := fun i _ => nth i vals (dflt C).
+
